@@ -22,11 +22,11 @@ CLASSES = {
  ],
  'C15': [
   ('R01-shift16', r'^rw/cass/(ha|wa|w2)(<<|>>)=', "16-bit x <<= k / x >>= k and x = x << k give different results (the expression form computes the high byte from the low byte; see C01 K03)"),
-  ('R02-unsigned-vs-0', r'^rw/(ifneg|negop|mirror|mirrorset)/(va|wa|X|Y)~(0|65535|255)/', "comparison of an unsigned value against 0 / the type maximum: one of the two equivalent forms is folded with the sign flag (see C01 K09)"),
-  ('R03-cmp16', r'^rw/(ifneg|negop|mirror|mirrorset)/(wa|wX|va)~(wb|wa|va)/', "16-bit unsigned <= / > / >= : the two equivalent forms take different branches (see C01 K10)"),
-  ('R04-signed-compare', r'^rw/(ifneg|negop|mirror|mirrorset)/(sa|ha)~', "signed comparison: a < b and b > a are lowered differently, both overflow-unsafe (see C01 K08)"),
+  ('R02-unsigned-vs-0', r'^rw/(far/)?(ifneg|negop|mirror|mirrorset|or)/(va|wa|X|Y)~(0|65535|255)/', "comparison of an unsigned value against 0 / the type maximum: one of the two equivalent forms is folded with the sign flag (see C01 K09)"),
+  ('R03-cmp16', r'^rw/(far/)?(ifneg|negop|mirror|mirrorset|or)/(wa|wX|va)~(wb|wa|va)/', "16-bit unsigned <= / > / >= : the two equivalent forms take different branches (see C01 K10)"),
+  ('R04-signed-compare', r'^rw/(far/)?(ifneg|negop|mirror|mirrorset|or)/(sa|ha)~', "signed comparison: a < b and b > a are lowered differently, both overflow-unsafe (see C01 K08)"),
   ('R06-saved-Y-lost-update', r'^rw/ctx/regidx-and/pp/Y=\d/inc/', "ptr[k] with a constant k saves Y, loads k and restores Y afterwards around the whole condition: an update of Y made inside the condition (`ptr[2] && (++Y, ptr[Y])`) is undone by the restore"),
-  ('R05-inc16-array', r'^rw/inc/.*w[2X]', "++/-- on a 16-bit array element updates the low byte only while x += 1 carries (see C01 K06)"),
+  ('R05-inc16-array', r'^rw/inc/.*w[2X]|^rw/regidx/w_inc/', "++/-- on a 16-bit array element updates the low byte only while x += 1 carries (see C01 K06)"),
  ],
  'C01': [
   ('K01-deref-clobbers-Y', r'^expr/.*dp', "'*ptr' is compiled as LDY #0 + (ptr),Y while another operand or the destination of the same expression still needs the previous Y (Y, arr[Y], ptr[Y]): wrong operand"),
